@@ -1,11 +1,25 @@
 (* C17 - A clean static check means no static-class failure at run time.
-   Statements only; proofs in Proofs/SoundnessProofs.v. Proved here: soundness of the checker's
-   expected-type propagation for expressions (every position of a script that carries a value is an
-   expression checked against a required type). The lifting to whole scripts (arity and function
-   resolution, variable origins, send-all source shapes) is decided on every run by checking AND
-   running each generated script and comparing the diagnostic classes with the run-time error
-   class (correspondence, judged in Coq by prop_C17). *)
-From NS Require Import Check Eval SoundnessProofs.
+   Statements only; proofs in Proofs/SoundnessProofs.v (expressions) and Proofs/ScriptSound.v (whole
+   scripts). The first sentence of the property is proved for whole scripts, every variable map and
+   every store (C17_script_soundness). The second sentence (no diagnostic at all => no failure
+   because of the shape of a send-all source) is decided on every run by checking AND running
+   each generated script (correspondence, judged in Coq by prop_C17). *)
+From NS Require Import Check Eval Run SoundnessProofs ScriptSound.
+
+(* whole scripts: for every complete program (what an error-free parse yields), if the checker
+   reports no error-severity diagnostic then, whatever the texts given for the variables, whatever
+   the store answers and whatever the feature flag, execution does not fail with a type error, an
+   unbound variable or function, a wrong number of arguments or an unknown type. (A variable that
+   is missing from the map or whose text does not parse fails with MissingVariableErr / a parsing
+   error: the caller's inputs, not the script.) *)
+Theorem C17_script_soundness : forall p s raw sb flag,
+  program_complete p = true ->
+  check_default p [] = Ok s -> errors_count (cs_diags s) = O ->
+  match run_program p raw sb flag with
+  | Err e => ~ static_err e
+  | _ => True
+  end.
+Proof. exact check_program_sound. Qed.
 
 (* for every complete expression and every required type: if the checker accepts it silently (no
    diagnostic added), then under every environment binding the declared variables to values of
@@ -20,6 +34,7 @@ Theorem C17_expression_soundness : forall e t s s' vs,
 Proof. exact check_expression_sound. Qed.
 
 Print Assumptions C17_expression_soundness.
+Print Assumptions C17_script_soundness.
 
 (* non-vacuity: [USD 1] + $m with $m : monetary is accepted silently and evaluates *)
 Example C17_example :
@@ -31,3 +46,19 @@ Example C17_example :
   (match check_expression (EInfix norange OpPlus (ENumber norange 1) (EVar norange "m")) "number" s with
    | Ok s' => map d_kind (cs_diags s') = [DTypeMismatch "number" "monetary"] | _ => False end).
 Proof. repeat split; reflexivity. Qed.
+
+(* non-vacuity of the script-level theorem: vars { monetary $m } send $m (source = @a destination = @b)
+   is complete and checked without error; the self-referencing origin of defect D20 is not *)
+Example C17_script_example :
+  let d := mkvardecl norange (Some (R 0 17 0 19, "m")) (Some (norange, "monetary")) None in
+  let p := mkprogram [d] [StSend norange (SVLit norange (EVar (R 1 5 1 7) "m"))
+                            (SAccount (EAccount norange "a")) (DAccount (EAccount norange "b"))] in
+  program_complete p = true
+  /\ (match check_default p [] with Ok s => errors_count (cs_diags s) = O | _ => False end)
+  /\ (let self := mkvardecl norange (Some (R 0 17 0 19, "a")) (Some (norange, "account"))
+                    (Some (mkfncall norange norange "meta" [EVar (R 0 27 0 29) "a"; EString norange "k"])) in
+      match check_default (mkprogram [self] []) [] with
+      | Ok s => errors_count (cs_diags s) = 1%nat
+      | _ => False
+      end).
+Proof. vm_compute. repeat split; reflexivity. Qed.
